@@ -519,6 +519,12 @@ def judge(case, obs, query_text, check_header=True):
     else:
         if case['breakAt'] != 0:
             return sigs          # with a fault plan the run may stop before the offending record (not compared)
+        alt = exp.get('alt') or {}
+        if got_err is None and alt.get('has'):
+            # RefAlt: an engine that stops right after the N-th row never evaluates the offending record; the N rows are the other acceptable outcome
+            if not rows_match(obs['rows'], alt['out']):
+                sigs.append(dict(base, what='result rows (early-stop alternative)', got=obs['rows'], want=alt['out']))
+            return sigs
         if got_err is None:
             sigs.append(dict(base, what='missing error', want=want_err))
         elif got_err['cls'] != want_err['cls']:
